@@ -292,8 +292,12 @@ def _check(case):
                     raise Violation("raised", "FileDestination raised %r for message %s" % (e, canon(spec)[:300]))
                 calls = proxy.calls[:]
                 del proxy.calls[:]
+                ok_calls = len(calls) == 2 and calls[0][0] == "write" and calls[1] == ("flush",)
+                if case.get("flaky_flush") and len(calls) > 2:
+                    # after a flush that would block, flushing again is fine; writing the line again is not
+                    ok_calls = calls[0][0] == "write" and all(c == ("flush",) for c in calls[1:])
                 require(
-                    len(calls) == 2 and calls[0][0] == "write" and calls[1] == ("flush",),
+                    ok_calls,
                     "call-discipline",
                     lambda: "expected write(x), flush(); got %r" % ([c[0] if len(c) == 1 else (c[0], c[1][:60]) for c in calls],),
                 )
